@@ -311,6 +311,8 @@ def make_pot(integrals, opt):
 
         def fermionInformation(self, fields, temperature):
             raise NotImplementedError
+    if integrals is None:
+        return OneLoop(imaginaryOption=opt)
     return OneLoop(integrals=integrals, imaginaryOption=opt)
 
 
@@ -436,6 +438,8 @@ def classify_integral(ctx, tag, kind, obj, x, got, want, tol, where):
 
 
 def run(ctx):
+    import logging
+    logging.getLogger().setLevel(logging.ERROR)
     rng = ctx.rng
     # ---- 1. generate ---------------------------------------------------------------------------
     gen_ok = True
@@ -452,6 +456,11 @@ def run(ctx):
             file="src/WallGo/PotentialTools/effectivePotentialNoResum.py", sha=vlib.sha(src_p),
             spans=spans))
         extra.append("ThermalSumGen.v")
+        src_b = vlib.read_src("interpolatableFunction.py")
+        ctx.write("Ctors.v", gen_thermal.constructors(src_i, src_b), sources=dict(
+            file="src/WallGo/PotentialTools/integrals.py + src/WallGo/interpolatableFunction.py",
+            sha=vlib.sha(src_i + src_b)))
+        extra.append("Ctors.v")
         tabrows = {}
         for nm, rel in TAB.items():
             with open(vlib.src_path(rel)) as f:
@@ -540,8 +549,117 @@ def run(ctx):
         "scalar temperature; particle arrays of equal length (numpy broadcasting not modelled)"]
 
 
+def history_checks(ctx, rng):
+    """The value returned for an argument must not depend on how many evaluations preceded it.
+    One object per (class, constructor setting) and the default Integrals() object evaluate a scan
+    of >= 600 distinct arguments (the adaptive machinery triggers after 500); first / last /
+    re-evaluated values are compared with a fresh object and with the independent quadrature."""
+    from WallGo.PotentialTools import JbIntegral, JfIntegral, Integrals, EImaginaryOption
+    nscan = ctx.n(620, 1300)
+
+    def val(o, x):
+        with warnings.catch_warnings():
+            warnings.simplefilter("ignore")
+            return [float(v) for v in np.asarray(o(float(x)), dtype=float).ravel()]
+
+    def scan_object(label, make, kind, xs, probes, adaptive):
+        obj = make()
+        first = val(obj, xs[0])
+        for x in xs[1:]:
+            val(obj, x)
+        ctx.count("history_scan", dict(label=label), bucket=label)
+        if not adaptive:
+            if obj.hasInterpolation() or getattr(obj, "_bUseAdaptiveInterpolation", False):
+                ctx.fail_input(
+                    "%s: after %d direct evaluations hasInterpolation() = %r, adaptive flag = %r "
+                    "although adaptive interpolation was switched off" % (
+                        label, len(xs), obj.hasInterpolation(),
+                        getattr(obj, "_bUseAdaptiveInterpolation", None)),
+                    dict(kind="history", label=label, n=len(xs), xmin=min(xs), xmax=max(xs)),
+                    key="history:adaptive-on:" + label)
+        for x in [xs[0], xs[-1]] + probes:
+            again = val(obj, x)
+            fresh = val(make(), x)
+            want = ref_J(kind, x)
+            ctx.count("history_probe", bucket=label)
+            tol = 1e-7 if not adaptive else 1e-6
+            bad = None
+            if not adaptive and again != fresh:
+                bad = "differs from a fresh object"
+            for g, w in zip(again, want):
+                if abs(g - w) > tol * max(1.0, abs(w)):
+                    bad = bad or "differs from the defining integral"
+            if x == xs[0] and not adaptive and first != again:
+                bad = bad or "changed between the first and a later evaluation"
+            if bad:
+                ctx.fail_input(
+                    "%s(%r) after a scan of %d distinct arguments in [%g, %g]: %r, fresh object "
+                    "%r, defining integral %r (%s)" % (label, x, len(xs), min(xs), max(xs),
+                                                       again, fresh, list(want), bad),
+                    dict(kind="history", label=label, x=x, n=len(xs), xmin=min(xs),
+                         xmax=max(xs), got=again, fresh=fresh, want=list(want)),
+                    key="history:" + label)
+                return
+
+    for tag, cls, kind in (("Jb", JbIntegral, "b"), ("Jf", JfIntegral, "f")):
+        # adaptive off (explicitly): wide scan, heavy and light arguments
+        wide = sorted(set(rng.uniform(0.0, 900.0) for _ in range(nscan)))
+        rng.shuffle(wide)
+        probes = [rng.uniform(0.0, 5.0), rng.uniform(5.0, 100.0), rng.uniform(100.0, 800.0)]
+        scan_object("%sIntegral(bUseAdaptiveInterpolation=False)" % tag,
+                    lambda cls=cls: cls(bUseAdaptiveInterpolation=False), kind, wide, probes,
+                    adaptive=False)
+        scan_object("Integrals().%s" % tag,
+                    lambda tag=tag: getattr(Integrals(), tag), kind, wide, probes,
+                    adaptive=False)
+        # adaptive on (the user asked for it): a range the 1000-point table resolves
+        narrow = sorted(set(rng.uniform(5.0, 60.0) for _ in range(nscan)))
+        rng.shuffle(narrow)
+        scan_object("%sIntegral(bUseAdaptiveInterpolation=True)" % tag,
+                    lambda cls=cls: cls(bUseAdaptiveInterpolation=True), kind, narrow,
+                    [rng.uniform(6.0, 59.0) for _ in range(3)], adaptive=True)
+    # the thermal potential with its default integrals: a temperature scan with a heavy fermion
+    def one(pot, T, mb2, mf2):
+        bos = (np.array([mb2]), np.array([3.0]), np.full(1, 1.5), np.full(1, 100.0))
+        fer = (np.array([mf2]), np.array([12.0]), np.full(1, 1.5), np.full(1, 100.0))
+        with warnings.catch_warnings():
+            warnings.simplefilter("ignore")
+            return float(pot.potentialOneLoopThermal(bos, fer, T))
+    pot = make_pot(None, EImaginaryOption.PRINCIPAL_PART)
+    mb2, mf2 = 50.0 ** 2, 170.0 ** 2
+    temps = [8.0 * 1.012 ** k for k in range(ctx.n(330, 700))]     # x from ~450 down to ~0.1
+    first = one(pot, temps[0], mb2, mf2)
+    for T in temps[1:]:
+        one(pot, T, mb2, mf2)
+    ctx.count("history_scan", bucket="potentialOneLoopThermal(default integrals)")
+    for T in [temps[0], temps[-1], temps[len(temps) // 2], temps[len(temps) // 3] * 1.003]:
+        again = one(pot, T, mb2, mf2)
+        fresh = one(make_pot(None, EImaginaryOption.PRINCIPAL_PART), T, mb2, mf2)
+        want = T ** 4 / (2 * math.pi ** 2) * (3.0 * ref_J("b", mb2 / T ** 2)[0] +
+                                              12.0 * ref_J("f", mf2 / T ** 2)[0])
+        ctx.count("history_probe", bucket="potentialOneLoopThermal")
+        sc = T ** 4 / (2 * math.pi ** 2) * 15.0
+        if again != fresh or abs(again - want) > 1e-7 * sc or \
+                (T == temps[0] and again != first):
+            ctx.fail_input(
+                "potentialOneLoopThermal (default integrals) at T = %r after a scan of %d "
+                "temperatures: %r, fresh object %r, expected %r" % (T, len(temps), again, fresh,
+                                                                    want),
+                dict(kind="history_pot", T=T, n=len(temps), mb2=mb2, mf2=mf2, got=again,
+                     fresh=fresh, want=want), key="history:potential")
+            break
+    for tag in ("Jb", "Jf"):
+        o = getattr(pot.integrals, tag)
+        if o.hasInterpolation():
+            ctx.fail_input("EffectivePotentialNoResum() default integrals: %s has built an "
+                           "interpolation table on its own during the scan" % tag,
+                           dict(kind="history_pot", tag=tag, n=len(temps)),
+                           key="history:adaptive-on:potential-" + tag)
+
+
 def direct(ctx, rng, D):
     from WallGo.PotentialTools import JbIntegral, JfIntegral, Integrals, EImaginaryOption
+    history_checks(ctx, rng)
     objs = {"Jb": ("b", JbIntegral(bUseAdaptiveInterpolation=False)),
             "Jf": ("f", JfIntegral(bUseAdaptiveInterpolation=False))}
     tabs = {"Jb": D.Jb, "Jf": D.Jf}
